@@ -19,7 +19,8 @@ Inductive action :=
 | ADynamic (name len_name : nat)
 | AGreedy (name : nat)
 | AStatic (name : nat) (size : Z)
-| ALimited (name len_name : nat).
+| ALimited (name len_name : nat)
+| ARename (name new_name : nat).
 
 Inductive pres := POk (ms : list mem) | PErr.
 
@@ -54,6 +55,16 @@ Definition py_insert (ms : list mem) (index : Z) (x : mem) : list mem :=
 Definition sizer_before (ms : list mem) (i : nat) (len_name : nat) : bool :=
   existsb (fun m => Nat.eqb (m_name m) len_name) (firstn i ms).
 
+(* rename_field (after fix 8cfbd78): arrays counted by the renamed field follow it *)
+Definition rebind (old new : nat) (m : mem) : mem :=
+  match m_bound m with
+  | Some b => if Nat.eqb b old
+              then {| m_name := m_name m; m_type := m_type m; m_bound := Some new; m_size := m_size m;
+                      m_greedy := m_greedy m; m_opt := m_opt m |}
+              else m
+  | None => m
+  end.
+
 Definition apply_action (ms : list mem) (a : action) : pres :=
   match a with
   | AType name tp =>
@@ -84,6 +95,14 @@ Definition apply_action (ms : list mem) (a : action) : pres :=
       match find_member ms name O with
       | Some (i, m) => POk (set_nth ms i {| m_name := m_name m; m_type := m_type m; m_bound := None; m_size := Some size;
                                             m_greedy := m_greedy m; m_opt := false |})
+      | None => PErr
+      end
+  | ARename name new_name =>
+      match find_member ms name O with
+      | Some (i, m) =>
+          POk (map (rebind name new_name)
+                   (set_nth ms i {| m_name := new_name; m_type := m_type m; m_bound := m_bound m; m_size := m_size m;
+                                    m_greedy := m_greedy m; m_opt := m_opt m |}))
       | None => PErr
       end
   | ALimited name len_name =>
